@@ -402,6 +402,100 @@ func main() {
 		}
 	}
 
+	// 5b. free-running validation pass of the concurrent harness bodies on the
+	// pristine build (real goroutines and channels), and - thorough tier - the
+	// same pass under the race detector to audit where unsynchronised accesses are
+	freeRuns := 0
+	var raceSites, raceOutside []string
+	raceReports := 0
+	{
+		n := 40
+		if tier == "thorough" {
+			n = 400
+		}
+		of := filepath.Join(work, "freerun.json")
+		cmd := exec.Command(plain, "-prop", id, "-tier", tier, "-freerun", strconv.Itoa(n), "-out", of)
+		var buf bytes.Buffer
+		cmd.Stdout, cmd.Stderr = &buf, &buf
+		done := make(chan error, 1)
+		if err := cmd.Start(); err == nil {
+			go func() { done <- cmd.Wait() }()
+			select {
+			case err := <-done:
+				if err != nil {
+					mismatches = append(mismatches, fmt.Sprintf("free-running pass crashed: %v\n%s", err, tail(buf.String(), 3000)))
+				}
+			case <-time.After(15 * time.Minute):
+				cmd.Process.Kill()
+				mismatches = append(mismatches, "free-running pass timed out")
+			}
+			if b, err := os.ReadFile(of); err == nil {
+				var r WorkerResult
+				if json.Unmarshal(b, &r) == nil {
+					freeRuns = r.TracesReplayed
+					validated += r.TracesReplayed
+					mismatches = append(mismatches, r.TraceMismatch...)
+				}
+			}
+		}
+		if tier == "thorough" && freeRuns > 0 {
+			raceBin := filepath.Join(work, "worker-race")
+			if out, err := run(engineDir, env, "go", "build", "-race", "-o", raceBin, "./cmd/worker"); err != nil {
+				fmt.Fprintln(os.Stderr, "race build failed (audit skipped):", tail(out, 500))
+			} else {
+				cmd := exec.Command(raceBin, "-prop", id, "-tier", tier, "-freerun", "40", "-out", filepath.Join(work, "race.json"))
+				cmd.Env = append(os.Environ(), "GORACE=halt_on_error=0 log_path="+filepath.Join(work, "racelog"))
+				var buf bytes.Buffer
+				cmd.Stdout, cmd.Stderr = &buf, &buf
+				done := make(chan error, 1)
+				if err := cmd.Start(); err == nil {
+					go func() { done <- cmd.Wait() }()
+					select {
+					case <-done:
+					case <-time.After(15 * time.Minute):
+						cmd.Process.Kill()
+					}
+				}
+				logs, _ := filepath.Glob(filepath.Join(work, "racelog*"))
+				siteSet := map[string]bool{}
+				for _, l := range logs {
+					b, _ := os.ReadFile(l)
+					for _, rep := range strings.Split(string(b), "WARNING: DATA RACE") {
+						if strings.TrimSpace(rep) == "" {
+							continue
+						}
+						raceReports++
+						// first gkvlite frame of each of the two accesses
+						for _, blk := range strings.Split(rep, "\n\n") {
+							if !(strings.Contains(blk, "Read at") || strings.Contains(blk, "Write at") || strings.Contains(blk, "Previous read") || strings.Contains(blk, "Previous write")) {
+								continue
+							}
+							for _, line := range strings.Split(blk, "\n") {
+								line = strings.TrimSpace(line)
+								if strings.HasPrefix(line, "github.com/cbehopkins/gkvlite.") {
+									fn := strings.TrimPrefix(line, "github.com/cbehopkins/gkvlite.")
+									if i := strings.Index(fn, "()"); i >= 0 {
+										fn = fn[:i]
+									}
+									siteSet[fn] = true
+									break
+								}
+							}
+						}
+					}
+				}
+				for s := range siteSet {
+					raceSites = append(raceSites, s)
+					if !(strings.HasPrefix(s, "(*nodeLoc).") || strings.HasPrefix(s, "(*itemLoc).") || strings.HasPrefix(s, "(*node).") || strings.HasPrefix(s, "node.")) {
+						raceOutside = append(raceOutside, s)
+					}
+				}
+				sort.Strings(raceSites)
+				sort.Strings(raceOutside)
+			}
+		}
+	}
+
 	// 6. known findings
 	var kf knownFile
 	if b, err := os.ReadFile(filepath.Join(verifDir, "known_findings.json")); err == nil {
@@ -497,8 +591,17 @@ func main() {
 		"profiles":                      profInfo,
 		"workers":                       nw,
 		"known_findings_hit":            len(knownHit),
+		"free_running_validation_runs":  freeRuns,
 		"violation_signatures":          sigCounts,
 		"explanation":                   "bounded exhaustive exploration of the real gkvlite code (instrumented overlay build of /repo's working tree); states = distinct (model state, flush stack, cache digest) triples reached; transitions = API calls executed; traces_validated_against_impl = explored histories replayed through the public API on the pristine (untagged, non-overlay) build with identical observation logs",
+	}
+	if tier == "thorough" && freeRuns > 0 {
+		cov["race_audit"] = map[string]interface{}{
+			"what":                           "the concurrent harness bodies run free under the race detector on the pristine build; the unchanged tree races by design in the unsynchronised accessors (never an oracle). Audit: every racy access must lie in a function that carries a scheduling point (T3: methods of nodeLoc/itemLoc/node); sites outside are interleaving sources the scheduler does not cover",
+			"race_reports":                   raceReports,
+			"racy_functions":                 raceSites,
+			"outside_instrumented_accessors": raceOutside,
+		}
 	}
 	ev := map[string]interface{}{
 		"property_id": id, "tier": tier, "seed": seed, "level": level, "coverage": cov,
